@@ -6,24 +6,39 @@ equality of the assembly text on every run) under the effect semantics of `Model
 (Δrsp in bytes, Δx87 in registers; `delta` for straight-line code, `Balanced` for code with labels
 and jumps: one height per label, every jump and fall-through arrives at its label's height).
 
-Full statements (`C20_*_Statement`) quantify over every node kind.  What is proved so far is named
-`_partial` and carries the decidable scope predicate `covE/covA/covS` (Lemmas/C20Induction.lean):
-all expression kinds whose code is straight-line — function calls with every argument list
-included (register, stack, struct in one or two registers of either class, struct in memory,
-long double, return buffer, both parities of `depth`) — for every operand type, arbitrary nesting.
-The `depth` half of the property (`C20_depth_partial`, `C20_assert`) is proved for ALL 47 node kinds.
-Open for the rsp/x87 half: COND, LOGAND, LOGOR, STMT_EXPR, CAS, the builtin alloca and the
-control-flow statements — their code has labels and needs the label-height semantics `Balanced`;
-it is validated by `Effect.checkBody` on every function of the corpus on every run, not yet proved.
-Calls with an empty struct argument and jumps out of a statement expression are the known findings
-C20-empty-struct-arg and C20-jump-out-of-stmt-expr (kernel-checked counterexamples of the full
-statements in Findings/C20.lean).
+Full statements (`C20_*_Statement`) quantify over every node kind.  Proved:
+* `C20_depth_partial`, `C20_assert` — the `depth` half, ALL 47 node kinds (side condition `okN`: the
+  sizes of aggregate arguments are not negative; since /repo b298aee an empty struct is an ordinary
+  argument).
+* `C20_expr_partial` … `C20_call_partial` — the rsp/x87 half for the straight-line node kinds
+  (`covE/covA/covS`), as an equation for `delta` (no label, no jump in the code).
+* `C20_expr_flow_partial`, `C20_expr_flow_balanced_partial`, `C20_addr_flow_partial`,
+  `C20_stmt_flow_partial`, `C20_function_flow_partial` — the rsp/x87 half for ALL node kinds, code with
+  labels included (?:, &&, ||, if, for, do/while, switch/case, goto/labels, break/continue, return,
+  statement expressions, compare-and-swap, the builtin alloca), by structural induction over the
+  tree in the label-height calculus of Lemmas/C20Flow*.lean: the generated code has one (rsp, x87)
+  height per label, every jump and every fall-through arrives at its label's height, control falls
+  out of an expression at (0, +1 iff long double) and out of a statement at (0, 0), every `return`
+  is reached with rsp = 0.  That the labels of the code are pairwise distinct is PROVED for the labels
+  made up from `count()` (freshness of the monotone counter: Lemmas/C20Labels.lean, C20Fresh.lean) and
+  for the numeric local labels; the one hypothesis about the code is `userDistinct`: the labels that
+  come from the parser occur once each (decidable, evaluated on every emitted function).
+  Scope (`flowE/flowS/flowFn`, Model/C20Flow.lean, decidable): every jump stays inside its region
+  (function body / body of a statement expression; outside: known finding C20-jump-out-of-stmt-expr),
+  `return` agrees with the function's return type.
+* `C20_checkBody_sound` — the executable whole-function check accepts only `FnBalanced` code.
+What stays open: `C20_expr_Statement` / `C20_stmt_Statement` / `C20_function_Statement` as stated are
+FALSE (Findings/C20.lean: a jump out of a statement expression; more than eight long double values
+live on the x87 stack; and `checkBody`'s three-pass label inference is incomplete); the range half of
+`checkBody` (rsp never above the frame, at most eight x87 registers) is not proved and stays with the
+executable check on every emitted function.
 
-Property theorems only; helper lemmas are in Lemmas/C20Lemmas.lean and Lemmas/C20Induction.lean.
+Property theorems only; helper lemmas are in Lemmas/C20*.lean.
 -/
 import ChibiVerif.Lemmas.C20Induction
 import ChibiVerif.Lemmas.C20Typing
 import ChibiVerif.Lemmas.C20Depth
+import ChibiVerif.Lemmas.C20FlowTop
 
 namespace ChibiVerif.Props.C20
 open ChibiVerif ChibiVerif.Codegen ChibiVerif.Effect ChibiVerif.Asm ChibiVerif.Ast
@@ -156,10 +171,10 @@ def C20_depth_Statement : Prop :=
     s'.depth = s.depth
 
 /-- **C20_depth (all 47 node kinds).**  For every tree of every kind — control flow, statement
-    expressions, calls with any argument list, atomics, alloca, ill-typed trees included — whose calls
-    pass only struct/union arguments of at least one byte (`okN`; outside: known finding
-    C20-empty-struct-arg): `gen_expr`, `gen_addr` and `gen_stmt` return with the `depth` they were
-    entered with. -/
+    expressions, calls with any argument list (GNU empty structs included), atomics, alloca, ill-typed
+    trees included — in which the sizes of struct/union arguments are not negative (`okN`: true of
+    every type `type.c` builds): `gen_expr`, `gen_addr` and `gen_stmt` return with the `depth` they
+    were entered with. -/
 theorem C20_depth_partial (env : Env) (n : Node) (h : okN n = true) (s s' : St) (ls : List Line)
     (hg : genExpr env n s = .ok ((), s', ls) ∨ genAddr env n s = .ok ((), s', ls) ∨
       genStmt env n s = .ok ((), s', ls)) :
@@ -172,7 +187,7 @@ theorem C20_depth_partial (env : Env) (n : Node) (h : okN n = true) (s s' : St) 
 example : okN (.if_ ⟨none, 1, 1⟩ (.num ⟨none, 1, 1⟩ 1 0 0 0 0) (.block ⟨none, 1, 1⟩ .nil) .null) = true := by decide
 
 /-- **C20_assert (every function).**  `assert(depth == 0)` in `emit_text` never fires: whenever
-    `gen_stmt(fn->body)` succeeds on a body of any shape (struct arguments of at least one byte), the
+    `gen_stmt(fn->body)` succeeds on a body of any shape (aggregate argument sizes not negative), the
     assertion that follows it passes, so `fnBody` succeeds with the same code. -/
 theorem C20_assert (env : Env) (fn : Obj) (h : okN fn.body = true) (s s' : St) (ls : List Line)
     (hg : genStmt env fn.body s = .ok ((), s', ls)) (h0 : s.depth = 0) :
@@ -190,5 +205,113 @@ theorem C20_cast_table : ∀ t1, t1 < 11 → ∀ t2, t2 < 11 →
      | some l => lineDelta l
      | none => some H.zero) = some ⟨0, f80 t2 - f80 t1⟩ :=
   castTable_delta
+
+/-! ## code with labels: every node kind -/
+
+/-- **C20_expr (every expression kind, code with labels included).**  For every well-typed expression
+    in scope (`flowE`: conditional, `&&`, `||`, statement expressions, compare-and-swap, alloca and
+    calls with any argument list included; every jump inside a statement expression stays inside
+    it): the code `gen_expr` prints has one (rsp, x87) height per label such
+    that every jump and every fall-through arrives at its label's height, and control falls out of
+    its end — if it can — with Δrsp = 0 and Δx87 = +1 iff the node's type is long double; `depth` is
+    back where it was.  The labels the code generator makes up from `count()` are proved pairwise
+    distinct (freshness of the monotone counter, Lemmas/C20Labels.lean, Lemmas/C20Fresh.lean); `hu`: the
+    labels that come from the parser (`break`/`continue`/`case`/`goto` labels inside statement
+    expressions) occur once each in the code (decidable; evaluated on every function the real compiler
+    emits). -/
+theorem C20_expr_flow_partial (env : Env) (n : Node) (ht : typedE env n = true) (hf : flowE n = true)
+    (s s' : St) (ls : List Line) (hg : genExpr env n s = .ok ((), s', ls))
+    (hu : userDistinct ls = true) :
+    BalancedOrLeaves ls ⟨0, x87Of n⟩ ∧ s'.depth = s.depth := by
+  obtain ⟨h1, h2⟩ := (fexpr env n ht hf).elim hg
+  exact ⟨by simpa [x87Of, xOf] using balancedOrLeaves_of_FlowP h1 hu, by simpa using h2⟩
+
+example : typedE { fpic := false, types := [] }
+    (.cond ⟨none, 1, 1⟩ (.num ⟨none, 1, 1⟩ 1 0 0 0 0) (.num ⟨none, 1, 1⟩ 2 0 0 0 0) (.num ⟨none, 1, 1⟩ 3 0 0 0 0)) = true
+  ∧ flowE (.cond ⟨none, 1, 1⟩ (.num ⟨none, 1, 1⟩ 1 0 0 0 0) (.num ⟨none, 1, 1⟩ 2 0 0 0 0) (.num ⟨none, 1, 1⟩ 3 0 0 0 0)) = true := by
+  decide
+
+/-- **C20_expr, in the vocabulary of the full statement.**  When control falls out of the end of the
+    code (`fallsThrough`: it does not end in a jump away — decidable; the code of an expression ends
+    in a jump only if a statement expression in it does), the code is `Balanced`: control leaves it
+    with Δrsp = 0 and Δx87 = +1 iff the node's type is long double. -/
+theorem C20_expr_flow_balanced_partial (env : Env) (n : Node) (ht : typedE env n = true) (hf : flowE n = true)
+    (s s' : St) (ls : List Line) (hg : genExpr env n s = .ok ((), s', ls))
+    (hu : userDistinct ls = true) (hft : fallsThrough ls = true) :
+    Balanced ls ⟨0, x87Of n⟩ ∧ s'.depth = s.depth := by
+  obtain ⟨h1, h2⟩ := C20_expr_flow_partial env n ht hf s s' ls hg hu
+  exact ⟨balanced_of_fallsThrough h1 hft, h2⟩
+
+example : typedE { fpic := false, types := [] }
+    (.logand ⟨none, 1, 1⟩ (.num ⟨none, 1, 1⟩ 1 0 0 0 0) (.num ⟨none, 1, 1⟩ 2 0 0 0 0)) = true
+  ∧ flowE (.logand ⟨none, 1, 1⟩ (.num ⟨none, 1, 1⟩ 1 0 0 0 0) (.num ⟨none, 1, 1⟩ 2 0 0 0 0)) = true := by
+  decide
+
+/-- **C20_addr (every lvalue kind).**  The same for `gen_addr`: Δrsp = 0, Δx87 = 0. -/
+theorem C20_addr_flow_partial (env : Env) (n : Node) (ht : typedA env n = true) (hf : flowA n = true)
+    (s s' : St) (ls : List Line) (hg : genAddr env n s = .ok ((), s', ls))
+    (hu : userDistinct ls = true) :
+    BalancedOrLeaves ls ⟨0, 0⟩ ∧ s'.depth = s.depth := by
+  obtain ⟨h1, h2⟩ := (faddr env n ht hf).elim hg
+  exact ⟨balancedOrLeaves_of_FlowP h1 hu, by simpa using h2⟩
+
+example : typedA { fpic := false, types := [] }
+    (.cond ⟨none, 1, 1⟩ (.num ⟨none, 1, 1⟩ 1 0 0 0 0) (.var ⟨none, 1, 1⟩ none) (.var ⟨none, 1, 1⟩ none)) = true
+  ∧ flowA (.cond ⟨none, 1, 1⟩ (.num ⟨none, 1, 1⟩ 1 0 0 0 0) (.var ⟨none, 1, 1⟩ none) (.var ⟨none, 1, 1⟩ none)) = true := by
+  decide
+
+/-- **C20_stmt (every statement kind).**  A well-typed statement that is a region of its own (`flowS`
+    with the labels it defines: every `break`, `continue`, `goto` and `case` dispatch in it targets a
+    label defined in it; no `return`): one height per label, every jump and fall-through arrives at
+    its label's height — so no number of iterations of a loop in it accumulates residue — and control
+    falls out of its end, if it can, at (0, 0). -/
+theorem C20_stmt_flow_partial (env : Env) (n : Node) (ht : typedS env n = true)
+    (hf : flowS (defsS n) none n = true)
+    (s s' : St) (ls : List Line) (hg : genStmt env n s = .ok ((), s', ls))
+    (hu : userDistinct ls = true) :
+    BalancedOrLeaves ls ⟨0, 0⟩ ∧ s'.depth = s.depth := by
+  have h := fstmt env (defsS n) none (at0 (defsS n)) (fun l hl => mem_at0.mpr ⟨hl, rfl⟩)
+    (fun _ h => by cases h) n ht hf
+  obtain ⟨h1, h2⟩ := (SemP_of_region h (fun l hl => mem_at0.mpr ⟨hl, rfl⟩)).elim hg
+  exact ⟨balancedOrLeaves_of_FlowP h1 hu, by simpa using h2⟩
+
+example : typedS { fpic := false, types := [] }
+    (.for_ ⟨none, 1, 1⟩ .null (.num ⟨none, 1, 1⟩ 1 0 0 0 0) .null
+      (.goto_ ⟨none, 1, 1⟩ none (some ".L..1")) (some ".L..1") (some ".L..2")) = true
+  ∧ flowS [".L..2", ".L..1"] none
+    (.for_ ⟨none, 1, 1⟩ .null (.num ⟨none, 1, 1⟩ 1 0 0 0 0) .null
+      (.goto_ ⟨none, 1, 1⟩ none (some ".L..1")) (some ".L..1") (some ".L..2")) = true := by
+  decide
+
+/-- **C20_function (every function body in scope).**  For every function whose body is well typed and
+    in scope (`flowFn`: every jump targets a label of its own region, `return` only in the region of
+    the body and of the function's long-double-ness): the code of the body
+    passes the whole-function label-height check `verifyL` (`Effect.verify`, the check `checkBody`
+    runs on every emitted function, without its range test) with some labelling — one (rsp, x87)
+    height per label, every jump and fall-through arrives at its label's height, every `return`
+    leaves with rsp = 0 — and `assert(depth == 0)` holds.  That the labels of the code are pairwise
+    distinct is proved for the labels made up from the monotone counter `count()` and for the numeric
+    local labels; `hu`: the parser's labels (`userLabel`) occur once each in the code (decidable). -/
+theorem C20_function_flow_partial (p : Program) (fn : Obj) (env : Env) (k : Int)
+    (_he : fnEnv p fn = .ok (env, k)) (ht : typedS env fn.body = true) (hf : flowFn env fn.body = true)
+    (s s' : St) (ls : List Line) (hg : genStmt env fn.body s = .ok ((), s', ls))
+    (hu : userDistinct ls = true) :
+    FnBalanced ls ∧ BalancedOrLeaves ls ⟨0, 0⟩ ∧ s'.depth = s.depth := by
+  have h := fstmt env (defsS fn.body) (some (isLD env.retTy))
+    ((retLabel env, ⟨0, if isLD env.retTy then 1 else 0⟩) :: at0 (defsS fn.body))
+    (fun l hl => List.mem_cons_of_mem _ (mem_at0.mpr ⟨hl, rfl⟩))
+    (fun ld h => by simp only [Option.some.injEq] at h; subst h; exact List.mem_cons_self) fn.body ht hf
+  obtain ⟨h1, h2, h3⟩ := h s () s' ls hg
+  obtain ⟨b1, b2⟩ := fnBalanced_of_SemF h1 (fun l hl => mem_at0.mpr ⟨hl, rfl⟩) h3 hu
+  exact ⟨b1, b2, by simpa using h2⟩
+
+example : flowFn { fpic := false, types := [] }
+    (.block ⟨none, 1, 1⟩ (.cons (.ret ⟨none, 1, 1⟩ (.num ⟨none, 1, 1⟩ 1 0 0 0 0)) .nil)) = true := by decide
+
+/-- **`checkBody` is a sound test of `FnBalanced`.**  Whenever the executable whole-function check
+    accepts a piece of code, the code has a labelling that passes `verifyL`: the theorems above prove,
+    for every function in scope, what the check tests on every emitted function (except the range). -/
+theorem C20_checkBody_sound (ls : List Line) (h : checkBody ls = .ok ()) : FnBalanced ls :=
+  ⟨_, verifyL_of_verify _ _ _ (by simpa [checkBody] using h)⟩
 
 end ChibiVerif.Props.C20
